@@ -843,7 +843,7 @@ theorem WellNamed.of_frame {m m' : Model α} (h : WellNamed m) (f : Frame m m') 
   ⟨by rw [f.1, f.2.1]; exact h.names, by rw [f.2.2]; exact h.stratNames⟩
 
 theorem reachable_wellNamed [Zero α] [One α] [Add α] [Sub α] [Mul α] [Div α] [NatCast α] [LT α]
-    [DecidableLT α] {m : Model α} (h : Reachable m) : WellNamed m := by
+    [DecidableLT α] {m : Model α} (h : ReachableB m) : WellNamed m := by
   induction h with
   | @mk t0 t1 dt ws comps inf m h =>
     unfold mkModel at h
